@@ -9,6 +9,11 @@ CLAIMED = {
 		text='Every obligation (pre@call, post, loop invariant init/preservation, variant, exception-freedom) generated from the current source of the block-splitting helpers is discharged for all inputs; the quote-domination part of the no-cut-inside-quotes law is a labelled bounded stand-in.',
 		note='pyvc encoding of the Python subset; z3/cvc5 soundness; spec functions in specs/brackets.py are the oracle; bounded parts listed in evidence.bounded_checks',
 		ref='DESIGN.md §4 C18'),
+	'C06': dict(
+		level='proof',
+		text='Proved for all inputs: the header written into an output is read back to the same value (MetaHeader.__init__/to_json/to_header_str/from_json/try_from_content on the shape entrypoint.j2 writes), headers compare equal exactly when all five recorded fields agree, a module is selected for regeneration iff no header is readable or a recorded field differs from the current one, and the output-path rule equals its specification (first matching entry; per-rule injectivity lemma). The whole-run equality with a forced run additionally needs the dependency frame of transpile(): known finding F-C06-a, replayed on the real CLI on every run.',
+		note='json / md5 / os.path.join / re as assumed externals (json facts bounded-checked); file I/O assumed; cross-rule path distinctness needs a configuration precondition',
+		ref='DESIGN.md §4 C06'),
 	'C15': dict(
 		level='exploration',
 		text='Bounded stand-in only: the contract V(EntryOfLark(loads(json(dumps(T))))) == V(EntryOfLark(T)) is evaluated at run time on every lark tree up to 4 (5) nodes over an alphabet that contains the corner cases (multi-line tokens, unset/zero positions, empty meta, None placeholders, childless trees) and on real parse trees. Nothing is counted as proved: the two recursive functions work on third-party lark objects and heterogeneous dicts that the VC subset cannot carry without replacing most statements by assumed readings.',
@@ -34,7 +39,7 @@ NOT_APPLICABLE = {
 	'C02': 'equality of two parsers over all texts (lark LALR engine interpreting grammar data vs CPython): no function contract of tranp carries it; only differential testing could, which is a different family (DESIGN.md §5)',
 	'C03': 'type soundness of the inference engine against CPython run-time types needs formal semantics of both languages and the stub library; not expressible as a contract over one call or data structure (DESIGN.md §5)',
 }
-PENDING = {p: 'designed in DESIGN.md §4, contracts not built yet in this round' for p in ['C01','C04','C05','C06','C07','C08','C09','C10','C11','C12','C13','C14']}
+PENDING = {p: 'designed in DESIGN.md §4, contracts not built yet in this round' for p in ['C01','C04','C05','C07','C08','C09','C10','C11','C12','C13','C14']}
 
 def main():
 	checks = []
